@@ -17,6 +17,21 @@ VALUE = XLError('#VALUE!')
 DATA = XLError('#GETTING_DATA')
 
 
+ALL_ERRORS = (ERROR, DIV_ZERO, NAME, NOT_AVAILABLE, NULL, NUM, REF, VALUE, DATA)
+
+
+def forget_tracebacks():
+    """
+    The errors above are shared objects that are returned as values *and* raised.
+    Every raise chains more frames onto their __traceback__, which would keep
+    growing (and keep the frames' locals alive) for the life of the process.
+    """
+    for err in ALL_ERRORS:
+        err.__traceback__ = None
+        err.__context__ = None
+        err.__cause__ = None
+
+
 def from_message(message):
     errdict = {
         '#ERROR!': ERROR,
